@@ -24,8 +24,12 @@ def parse_file(path):
 
 
 def in_repo(f):
+  """Functions whose source is interpreted (inlined): everything under the repository - and the
+  small case functions of pysym's own semantics self-test."""
   code = getattr(f, "__code__", None)
-  return code is not None and os.path.abspath(code.co_filename).startswith(os.path.abspath(REPO))
+  if code is None: return False
+  path = os.path.abspath(code.co_filename)
+  return path.startswith(os.path.abspath(REPO)) or path.endswith("/selftest/pysym_cases.py")
 
 
 def find_def(tree, qualname):
